@@ -74,6 +74,9 @@ def run(ctx):
     # ---- the temperature the loop moves to is the search result itself: one update per iteration, by determine_beta on the current state
     from ..report import reuse as _reuse
     from . import c06 as _c06
+    _reuse(ctx, lambda c: _c06.run(c, shared=False), ("C06.opts",), "C07floor",
+           "option rule shared with C06: the minimum-step floor (and whether it is rescaled) is decided by this call's options; a floor or a rescaling flag left over from an "
+           "earlier call forces steps past the largest temperature that meets the ESS target", only=lambda f: "minimum step" in f.detail or "adaptive_min_step" in f.detail)
     _reuse(ctx, lambda c: _c06.run(c, shared=False), ("C06.once",), "C07once",
            "update rule shared with C06: a temperature changed again after the search (a nudge, a snap, a second assignment) is no longer the largest step that meets the ESS target",
            only=lambda f: "| beta" in f.key or "update" in f.key or f.key.count("|") >= 2)
@@ -120,6 +123,12 @@ def run(ctx):
         ctx.refute("C07.guard", db.ident, loc, f"loop guard {T.show(test)[:200] if test else None} is not (hi - lo > tolerance) over the two bracket variables")
         return
     ctx.prove("C07.guard", db.ident, loc, f"loop guard == ({T.show(HI)} - {T.show(LO)} > {T.show(TOL)})")
+    # the tolerance of the search is the caller's: the bracket is refined until it is narrower than the `beta_tolerance` argument, not than
+    # something larger derived from it (the result is "maximal" only up to the width at which the search stops)
+    tol_params = [T.atom(p_) for p_ in db.params if "tol" in p_]
+    ctx.decide(TOL in tol_params, "C07.guard", db.ident, loc, "the search stops at the caller's tolerance",
+               f"the search stops when the bracket is narrower than {T.show(TOL)[:80]}, not than the tolerance argument "
+               f"({', '.join(T.show(t_) for t_ in tol_params) or 'none found'}): with a coarser stop the returned temperature can fall short of the largest admissible one by that much", disc="tolerance")
     name_of = {v: k for k, v in lp["head"].items()}
     lo_n, hi_n = name_of[LO], name_of[HI]
     b_lo, b_hi = lp["body"][lo_n], lp["body"][hi_n]
@@ -248,6 +257,9 @@ MUTANTS += [
 MUTANTS += [
     M("the SMC sampler's constructor also accepts the target efficiency", "src/aspire/samplers/smc/base.py", "rng: np.random.Generator | None = None,\n        preconditioning_transform: Callable | None = None,\n    ):\n        super().__init__(\n            log_likelihood=log_likelihood,",
       "rng: np.random.Generator | None = None,\n        preconditioning_transform: Callable | None = None,\n        target_efficiency: float = 0.5,\n    ):\n        self.target_efficiency = target_efficiency\n        super().__init__(\n            log_likelihood=log_likelihood,", "C07.opts"),
+]
+MUTANTS += [
+    M("search stops once the bracket is narrower than the minimum step", _B, "beta_prev = beta\n            beta_min = beta_prev", "beta_prev = beta\n            beta_tolerance = max(beta_tolerance, min_step)\n            beta_min = beta_prev", "C07.guard"),
 ]
 NEUTRALS = [
     __import__("aspire_sa.rules.smcloop", fromlist=["HELPER_NEUTRAL"]).HELPER_NEUTRAL,
